@@ -14,6 +14,28 @@ class Bad(Exception):
         self.mech = mech
 
 
+def same_target(arrived, stored):
+    """The stored target is the one that arrived: the same object, or - for numbers - an equal value."""
+    import numbers
+    if arrived is stored:
+        return True
+    if isinstance(arrived, (numbers.Number,)) or hasattr(arrived, "dtype"):
+        try:
+            return bool(arrived == stored)
+        except Exception:
+            return False
+    return False
+
+
+def numeric_target(i):
+    """Targets of many numeric types whose values do not survive a cast to float / int."""
+    import decimal
+    import fractions
+    import numpy as np
+    return [fractions.Fraction(2 * i + 1, 3), np.longdouble(i) + np.longdouble(1) / np.longdouble(3), 2 ** 60 + 2 * i + 1, np.float32(i + 1) / np.float32(3),
+            i + 0.5, decimal.Decimal(i) / decimal.Decimal(7), np.int64(2 ** 62 + i), bool(i % 2)][i % 8]
+
+
 def invariant(st, arrivals, pos, cap, targets, kind):
     """Reads only len() and get_data()."""
     xs, ys = st.get_data()
@@ -33,8 +55,8 @@ def invariant(st, arrivals, pos, cap, targets, kind):
         if len(ys) != len(xs):
             raise Bad("target-count", f"{len(ys)} targets for {len(xs)} instances")
         for i, y in zip(idx, ys):
-            if arrivals[i][1] is not y:
-                raise Bad("target-misaligned", f"stored target {y!r} does not belong to arrival {i}")
+            if not same_target(arrivals[i][1], y):
+                raise Bad("target-misaligned", f"stored target {y!r} does not belong to arrival {i} (which came with {arrivals[i][1]!r})")
     elif len(ys) != 0:
         raise Bad("targets-kept", f"store_targets=False but {len(ys)} targets are kept")
     if kind == "batch" and idx != list(range(n)):
@@ -129,7 +151,7 @@ def drive(kind, k, p, tg, n, every=1, outcomes=None):
     evals = 0
     upd = st.update if (n + (k or 0)) % 3 == 1 else None      # a bound method taken before the first update, used throughout
     for i in range(n):
-        x, y = {"t": i, "v": i * i}, ("y", i)
+        x, y = {"t": i, "v": i * i}, (("y", i) if (n + (k or 0)) % 4 else numeric_target(i))      # some streams carry numeric targets of many types
         arrivals.append((x, y))
         pos[id(x)] = i
         if i % 5 == 2:
@@ -247,6 +269,19 @@ def main(run):
                     run.violation(f"{kind if kind != 'interval' else 'deterministic'}:{b.mech}", f"{kind} capacity {k} targets={tg}: {b}",
                                   {"kind": kind, "k": k, "store_targets": tg, "n": k + 4})
         run.nontriv(("capacity-sweep", kind, sh))
+    # ---- (b0) streams beyond 2**16 updates on ONE storage object (counter thresholds), content read now and then
+    for j, (kind, k, p) in enumerate([("uniform", 4, None), ("geometric", 3, 1.0), ("interval", 5, None), ("uniform", 1, None)]):
+        if j % nsh != sh % 4 and nsh > 1:
+            continue
+        random.seed(rnd.randrange(2 ** 31))
+        n_vl = 70000 if not thorough else 140000
+        try:
+            run.ok(drive(kind, k, p, j % 2 == 0, n_vl, every=997), kind="beyond-2^16")
+            run.nontriv(("very-long", kind, k))
+        except Bad as b:
+            run.ok(kind="beyond-2^16")
+            run.violation(f"{kind if kind != 'interval' else 'deterministic'}:{b.mech}", f"{kind} k={k} stream of {n_vl} updates: {b}",
+                          {"kind": kind, "k": k, "p": p, "n": n_vl})
     # ---- (b) long seeded streams
     n_long = 20000 if thorough else 4000
     for j, (kind, k, p) in enumerate([("uniform", 1, None), ("uniform", 7, None), ("uniform", 100, None),
